@@ -270,6 +270,7 @@ func (p *parser) BasicParser(urlOrRef string, baseUrl *Url, url *Url, stateOverr
 				url.username = base.username
 				url.password = base.password
 				url.host = base.host
+				url.isIPv4, url.isIPv6 = base.isIPv4, base.isIPv6
 				url.port = base.port
 				url.decodedPort = base.decodedPort
 				url.path = base.path
@@ -301,6 +302,7 @@ func (p *parser) BasicParser(urlOrRef string, baseUrl *Url, url *Url, stateOverr
 				url.username = base.username
 				url.password = base.password
 				url.host = base.host
+				url.isIPv4, url.isIPv6 = base.isIPv4, base.isIPv6
 				url.port = base.port
 				url.decodedPort = base.decodedPort
 				state = StatePath
@@ -465,6 +467,7 @@ func (p *parser) BasicParser(urlOrRef string, baseUrl *Url, url *Url, stateOverr
 				state = StateFileSlash
 			} else if base != nil && base.scheme == "file" {
 				url.host = base.host
+				url.isIPv4, url.isIPv6 = base.isIPv4, base.isIPv6
 				url.path = base.path
 				url.query = base.query
 				if r == '?' {
@@ -501,6 +504,7 @@ func (p *parser) BasicParser(urlOrRef string, baseUrl *Url, url *Url, stateOverr
 			} else {
 				if base != nil && base.scheme == "file" {
 					url.host = base.host
+					url.isIPv4, url.isIPv6 = base.isIPv4, base.isIPv6
 					if !startsWithAWindowsDriveLetter(input.remainingFromPointer()) && base.path != nil && isNormalizedWindowsDriveLetter(base.path.p[0]) {
 						// This is a (platform-independent) Windows drive letter quirk. Both url’s and base’s host are null under these conditions and therefore not copied
 						url.path.addSegment(base.path.p[0])
@@ -519,6 +523,7 @@ func (p *parser) BasicParser(urlOrRef string, baseUrl *Url, url *Url, stateOverr
 					state = StatePath
 				} else if buffer.Len() == 0 {
 					url.host = new(string)
+					url.isIPv4, url.isIPv6 = false, false
 					if stateOverridden {
 						return nil, nil
 					}
